@@ -186,7 +186,7 @@ fn contains_newline<T>(chunks: &[StringChunk<T>]) -> bool {
 /// back the original chunks. It doesn't for example for `"  a\n  b"` (common indentation),
 /// `" \n "` (blank lines only) or `"a\n  %{x}"` when it comes from a standard string (the
 /// indentation level of `x` would become 2).
-fn multiline_roundtrips<'ast>(chunks: &[StringChunk<Ast<'ast>>]) -> bool {
+pub fn multiline_roundtrips<'ast>(chunks: &[StringChunk<Ast<'ast>>]) -> bool {
     // Adjacent literals are fused, as the lexer and the parser do.
     fn push<'ast>(probe: &mut Vec<StringChunk<Ast<'ast>>>, chunk: StringChunk<Ast<'ast>>) {
         match (probe.last_mut(), chunk) {
